@@ -21,6 +21,11 @@ func (m *Machine) pushFrame(th *Thread, f FuncV, args []Value, dst ssa.Value, on
 		panic(unsupported("call depth > 400 in " + m.fnName(fn)))
 	}
 	fr := &Frame{fn: fn, block: fn.Blocks[0], env: make(map[ssa.Value]Value, 16), dst: dst, onReturn: onReturn}
+	if m.stats.Funcs != nil {
+		if name, ok := m.repoFuncName(fn); ok {
+			m.stats.Funcs[name]++
+		}
+	}
 	if len(th.frames) > 0 {
 		fr.caller = th.frames[len(th.frames)-1]
 		fr.tolerant = fr.caller.tolerant
@@ -589,4 +594,37 @@ func wildMatch(pat, s string) bool {
 		s = s[j+len(p):]
 	}
 	return true
+}
+
+// repoFuncName: the name of fn if it is code of the repository under test (not harness, runtime, model or stub code)
+func (m *Machine) repoFuncName(fn *ssa.Function) (string, bool) {
+	if n, ok := m.repoFn[fn]; ok {
+		return n, n != ""
+	}
+	name := ""
+	root := fn
+	for root.Parent() != nil {
+		root = root.Parent()
+	}
+	if root.Pkg != nil && root.Pkg.Pkg != nil {
+		pp := root.Pkg.Pkg.Path()
+		if strings.HasPrefix(pp, "github.com/dapr/kit") && !strings.Contains(pp, "/zzverif") {
+			pos := fn.Pos()
+			if !pos.IsValid() {
+				pos = root.Pos()
+			}
+			file := ""
+			if pos.IsValid() && fn.Prog != nil {
+				file = fn.Prog.Fset.Position(pos).Filename
+			}
+			if !strings.Contains(file, "zz_verif") {
+				name = fn.String()
+			}
+		}
+	}
+	if m.repoFn == nil {
+		m.repoFn = map[*ssa.Function]string{}
+	}
+	m.repoFn[fn] = name
+	return name, name != ""
 }
